@@ -47,7 +47,15 @@ def run(ctx: core.Ctx) -> int:
         rtmodel.check_stepplan(ctx, plan, rel, "ManagedFilter._process_model", "python")
         nplans += 1
         _check_return(ctx, plan, rel, "ManagedFilter._process_model", "python")
-    # ---- C++
+    nplans += cpp_part(ctx)
+    ctx.floor("STEPPLAN", nplans, 10, "step plans (1 Python + 4 C++ instantiations, 2 directions each)")
+    mag_gen(ctx)
+    return core.finish(ctx, explanation="E5: IR-level symbolic execution of the step functions under direction scenarios, "
+                                        "sign analysis + provenance + effects", **META)
+
+
+def cpp_part(ctx: core.Ctx) -> int:
+    nplans = 0
     ir = rtmodel.cpp_runtime_ir(ctx)
     if ir.get("__rc__"):
         # a compile error in the runtime header is C12's finding; here it only prevents the analysis
@@ -67,10 +75,7 @@ def run(ctx: core.Ctx) -> int:
                 rtmodel.check_stepplan(ctx, plan, HDR, f"ManagedFilter::processUpdate/{len(params)}", f"C++ {val}")
                 _check_return(ctx, plan, HDR, f"ManagedFilter::processUpdate/{len(params)}", f"C++ {val}")
                 nplans += 1
-    ctx.floor("STEPPLAN", nplans, 10, "step plans (1 Python + 4 C++ instantiations, 2 directions each)")
-    mag_gen(ctx)
-    return core.finish(ctx, explanation="E5: IR-level symbolic execution of the step functions under direction scenarios, "
-                                        "sign analysis + provenance + effects", **META)
+    return nplans
 
 
 def _check_return(ctx, plan, file, func, tag):
